@@ -111,4 +111,80 @@ theorem merge_leaf (hq : QRefl Q) {D : List DName} (k1 k2 : LocalKind) (ns1 ns2 
       intro N call ρ k env σ
       rw [evalFirsts_eq, hlen]
 
+theorem noRefEs_merge {D : List DName} (ns1 ns2 : List TName) (vs1 vs2 : List Expr) (h1 : NoRefEs D vs1)
+    (h2 : NoRefEs D vs2) : NoRefEs D (merge ns1 vs1 ns2 vs2).2 := by
+  simp only [merge]
+  refine (noRefEs_append _ _).mpr ⟨?_, ?_⟩
+  · split
+    · exact (noRefEs_append _ _).mpr ⟨h1, noRefEs_nils D _⟩
+    · exact h1
+  · split <;> split <;>
+      first | exact h2 | exact (noRefEs_append _ _).mpr ⟨h2, noRefEs_nils D _⟩
+
+theorem merge_fst (ns1 ns2 : List TName) (vs1 vs2 : List Expr) : (merge ns1 vs1 ns2 vs2).1 = ns1 ++ ns2 := rfl
+
+/-- **the link**: one merge the rule decides, anywhere in a block -/
+theorem vk_merge (pre rest : List Stmt) (last : Option Last) (k1 k2 : LocalKind) (ns1 ns2 : List TName)
+    (vs1 vs2 : List Expr) (hS : shouldMerge ns1 vs1 vs2 = true) :
+    VkBo cx0 (.mk (pre ++ .localAssign k1 ns1 vs1 :: .localAssign k2 ns2 vs2 :: rest) last)
+      (.mk (pre ++ .localAssign k1 (merge ns1 vs1 ns2 vs2).1 (merge ns1 vs1 ns2 vs2).2 :: rest) last) := by
+  intro D _ hn
+  have key : ∀ (hss : NoRefSs D (pre ++ .localAssign k1 ns1 vs1 :: .localAssign k2 ns2 vs2 :: rest)),
+      VR cx0 D (.ss (pre ++ .localAssign k1 ns1 vs1 :: .localAssign k2 ns2 vs2 :: rest))
+        (.ss (pre ++ .localAssign k1 (merge ns1 vs1 ns2 vs2).1 (merge ns1 vs1 ns2 vs2).2 :: rest)) D ∧
+      NoRefSs D (pre ++ .localAssign k1 (merge ns1 vs1 ns2 vs2).1 (merge ns1 vs1 ns2 vs2).2 :: rest) := by
+    intro hss
+    obtain ⟨hpre, htl⟩ := (noRefSs_append _ _).mp hss
+    obtain ⟨hL1, htl2⟩ := NoRefSs.cons.mp htl
+    obtain ⟨hL2, hrest⟩ := NoRefSs.cons.mp htl2
+    obtain ⟨hnw1, hne1⟩ := NoRefS.localAssign.mp hL1
+    obtain ⟨hnw2, hne2⟩ := NoRefS.localAssign.mp hL2
+    refine ⟨VR.ssPrefix pre hpre (.genSs fun Q hq =>
+      merge_leaf hq k1 k2 ns1 ns2 vs1 vs2 rest hS hne1 hne2 hrest (Heap.NoWat.names hnw1) (Heap.NoWat.names hnw2)), ?_⟩
+    refine (noRefSs_append _ _).mpr ⟨hpre, NoRefSs.cons.mpr ⟨?_, hrest⟩⟩
+    refine NoRefS.localAssign.mpr ⟨?_, noRefEs_merge ns1 ns2 vs1 vs2 hne1 hne2⟩
+    rw [merge_fst]
+    exact (noWat_append _ _).mpr ⟨hnw1, hnw2⟩
+  cases last with
+  | none =>
+    obtain ⟨vr, hn'⟩ := key (NoRefB.none.mp hn)
+    exact ⟨.blockNone vr, NoRefB.none.mpr hn'⟩
+  | some l =>
+    obtain ⟨hss, hl⟩ := NoRefB.some.mp hn
+    obtain ⟨vr, hn'⟩ := key hss
+    exact ⟨.blockSome vr (VR.reflL hl), NoRefB.some.mpr ⟨hn', hl⟩⟩
+
+/-- the loop of `filter_statements` as a chain of merge links -/
+theorem chain_go (last : Option Last) (prev : Stmt) (rest : List Stmt) :
+    ∀ pre : List Stmt, Chain (VkBo cx0) (.mk (pre ++ prev :: rest) last) (.mk (pre ++ go prev rest) last) := by
+  fun_induction go prev rest with
+  | case1 prev => intro pre; exact .refl _
+  | case2 k1 ns1 vs1 k2 ns2 vs2 rest hS ns vs hmerge ih =>
+    intro pre
+    have e : ns = (merge ns1 vs1 ns2 vs2).1 ∧ vs = (merge ns1 vs1 ns2 vs2).2 := by rw [hmerge]; exact ⟨rfl, rfl⟩
+    rw [e.1, e.2] at ih ⊢
+    exact .cons (vk_merge pre rest last k1 k2 ns1 ns2 vs1 vs2 hS) (ih pre)
+  | case3 k1 ns1 vs1 k2 ns2 vs2 rest hS ih =>
+    intro pre
+    have := ih (pre ++ [.localAssign k1 ns1 vs1])
+    simpa using this
+  | case4 prev cur rest hx ih =>
+    intro pre
+    have := ih (pre ++ [prev])
+    simpa using this
+
+theorem hooksU : HooksU cx0 processor where
+  block := fun b s => by
+    cases b with
+    | mk stmts last =>
+      simp only [processor, processBlock]
+      cases stmts with
+      | nil => exact .refl _
+      | cons x xs => exact chain_go last x xs []
+
+/-- **whole rule, EVERY program**: `group_local_assignment` preserves the observable outcome -/
+theorem apply_refines (b : Block) {N : NumOps} (ρ : ExtOracle N) (hρ : OracleFlat ρ) (n : Nat) (externs : List String) :
+    runProgram ρ n externs (Rules.GroupLocal.apply b) = runProgram ρ n externs b :=
+  Visitor.runDefault_u hooksU b () ρ hρ n externs
+
 end DarkluaModel.C16.GroupU
